@@ -93,6 +93,47 @@ func (m *RWMutex) Lock() {
 	t.rw = nil
 	raceAcquire(unsafe.Pointer(&m.rsem))
 	raceAcquire(unsafe.Pointer(&m.wsem))
+	if yieldWhileHolding {
+		t.op = opYield
+		t.point()
+	}
+}
+
+// TryLock / TryRLock never block: they fail when the lock is held or a writer has announced itself.
+//
+//go:norace
+func (m *RWMutex) TryLock() bool {
+	t := enter(false)
+	if t == nil {
+		return true
+	}
+	t.op = opAtomic
+	t.obj = &m.hb
+	t.point()
+	if m.owner != 0 || m.readers != 0 || m.wwait != 0 {
+		return false
+	}
+	m.owner = int32(t.ID + 1)
+	raceAcquire(unsafe.Pointer(&m.rsem))
+	raceAcquire(unsafe.Pointer(&m.wsem))
+	return true
+}
+
+//go:norace
+func (m *RWMutex) TryRLock() bool {
+	t := enter(false)
+	if t == nil {
+		return true
+	}
+	t.op = opAtomic
+	t.obj = &m.hb
+	t.point()
+	if m.owner != 0 || m.wwait != 0 {
+		return false
+	}
+	m.readers++
+	raceAcquire(unsafe.Pointer(&m.rsem))
+	return true
 }
 
 //go:norace
